@@ -35,6 +35,7 @@ RULE = (
     'significant digits: -99999999, -9999.9999, ...; text of 12-18 '
     'characters: -999999999999, -9999.123456789, -99999999999999999, ...) '
     'sets as int or float, '
+    'or no declared code at all (default -999 in header and cells), '
     'random masks (none / some / all), 0-6 single-line header attributes '
     '(ICARTT keywords and neutral names, text values with : , ; =, empty, '
     'blank-only or with leading/trailing blanks, or plain numbers), '
@@ -184,6 +185,11 @@ def cases(draw, tier='quick'):
         pool = MISS_TYPICAL + ((MISS_LONG + MISS_LONGTEXT) * 2
                                if long_ok else [])
         miss = draw(st.sampled_from(pool))
+        # a masked variable that declares no missing code at all: the writer
+        # documents -999 as the default, in the header and in the cells
+        nocode = draw(st.sampled_from([False] * 5 + [True]))
+        if nocode:
+            miss = -999
         maskkind = draw(st.sampled_from(['none', 'some', 'some', 'some',
                                          'all']))
         if maskkind == 'none':
@@ -208,8 +214,8 @@ def cases(draw, tier='quick'):
                 for v, m in zip(vals, mask)]
         deps.append(dict(name=names[k], unit=draw(st.sampled_from(UNITS)),
                          missing=miss, dtype=dt, values=vals, mask=mask,
-                         build=draw(st.sampled_from(['masked', 'masked',
-                                                     'plain']))
+                         build='nocode' if nocode else
+                         draw(st.sampled_from(['masked', 'masked', 'plain']))
                          if maskkind == 'none' else 'masked'))
     # the reader masks the independent variable with the first dependent
     # variable's code: keep them apart (positive codes are >= 999999)
@@ -306,6 +312,13 @@ def build(spec):
             continue
         arr = np.array(d['values'], dtype=d['dtype'])
         miss = d['missing']
+        if d['build'] == 'nocode':
+            ma = np.ma.MaskedArray(arr, mask=np.array(d['mask'], dtype=bool))
+            v = PseudoNetCDFMaskedVariable(f, d['name'], d['dtype'], (dim,),
+                                           values=ma)
+            v.units = d['unit']
+            f.variables[d['name']] = v
+            continue
         if d['build'] == 'plain':
             v = PseudoNetCDFVariable(f, d['name'], d['dtype'], (dim,),
                                      values=arr)
@@ -575,6 +588,10 @@ def check_case(spec):
         r.label('unit-special-chars')
     if any(d['build'] == 'plain' for d in deps):
         r.label('plain-variable')
+    if any(d['build'] == 'nocode' for d in deps):
+        r.label('no-declared-code')
+        if any(d['build'] == 'nocode' and any(d['mask']) for d in deps):
+            r.label('no-declared-code+masked')
     if spec['indep']['pos'] != 0:
         r.label('indep-not-first')
     if spec['indep']['definition']:
